@@ -60,6 +60,7 @@ TrickyCs == << <<"a", "U+000A", "b">>, <<"a", "U+000A">>, <<"U+000A", "a">>, <<"
 (* "é" written in a TLA+ string would not be plain ASCII: keep the plain list ASCII only *)
 TrickyP == SelectSeq(TrickyPlain, LAMBDA s : s # "é")
 NSpecial == Len(TrickyP) + Len(TrickyCs) + 2
+NSpecialAll == NSpecial + 1      \* + the date-time document (no trimming may happen there)
 
 Tricky(i) == IF i <= Len(TrickyP) THEN Sv(TrickyP[i]) ELSE Cs(TrickyCs[i - Len(TrickyP)])
 TrickyDoc(ver, i) ==
@@ -83,8 +84,13 @@ DeepDoc(ver) ==
 DateDoc(ver) ==
    LET S == IF ver = 3 THEN "Schema" ELSE "Schema2"
    IN Host(S, Ov(<<"type", "format", "example", "default">>, <<Sv("string"), Sv("date"), Sv(DateLong), Sv(DateLong)>>))
+(* the same midnight value under format date-time is an ordinary value and must survive untouched *)
+DateTimeDoc(ver) ==
+   LET S == IF ver = 3 THEN "Schema" ELSE "Schema2"
+   IN Host(S, Ov(<<"type", "format", "example", "default">>, <<Sv("string"), Sv("date-time"), Sv(DateLong), Sv(DateLong)>>))
 SpecialDoc(ver, i) == IF i <= Len(TrickyP) + Len(TrickyCs) THEN TrickyDoc(ver, i)
-                      ELSE IF i = NSpecial THEN DateDoc(ver) ELSE DeepDoc(ver)
+                      ELSE IF i = NSpecial THEN DateDoc(ver)
+                      ELSE IF i = NSpecialAll THEN DateTimeDoc(ver) ELSE DeepDoc(ver)
 
 DocOf(cc) ==
    IF cc.mode = "special" THEN WithTargets(cc.ver, SpecialDoc(cc.ver, cc.i))
@@ -119,7 +125,7 @@ Init ==
             /\ FullFields(kind) # {}
             /\ var = "alt" => Excl(kind) # {}
             /\ gcase = Case("full", kind, FullFv(kind, var), ext)
-      \/ \E ver \in {2, 3}, i \in 1..NSpecial : gcase = [mode |-> "special", ver |-> ver, i |-> i]
+      \/ \E ver \in {2, 3}, i \in 1..NSpecialAll : gcase = [mode |-> "special", ver |-> ver, i |-> i]
       \/ \E ki \in DOMAIN KindSeq, r \in 1..RandPerKind : gcase = RandCase(ki, r)
    /\ gdoc = DocOf(gcase)
 
